@@ -1,7 +1,10 @@
 #!/bin/bash
 # tools/confirm_seed.sh <ID> [suffix] : confirm a seeded change in its scratch worktree /tmp/seed_<ID><suffix>,
 # store it under /verif/seeded/<ID><suffix>/ and run the property's quick check against it.
-ID=$1; SUF=${2:-}; WT=/tmp/seed_$ID$SUF; OUT=/verif/seeded/$ID$SUF
+# Environment: PART=suite only runs the suite/demo part (can run for several seeds in parallel),
+# PART=check only runs the property's quick check against the stored patch (serial: it patches /repo).
+ID=$1; SUF=${2:-}; WT=/tmp/seed_$ID$SUF; OUT=/verif/seeded/$ID$SUF; PART=${PART:-both}
+if [ "$PART" != "check" ]; then
 mkdir -p $OUT; cp $WT/SEED/* $OUT/ 2>/dev/null
 cd $WT || exit 3
 git checkout -q -- . ; 
@@ -17,6 +20,8 @@ echo "== demo without the change (must pass)"
 cargo test --offline --test $DEMO 2>&1 | grep -E "^test |^test result" | head -20
 } > $OUT/confirm.log 2>&1
 cat $OUT/confirm.log
+fi
+[ "$PART" = "suite" ] && exit 0
 cd /verif
 echo "== my check against the seeded change"
 git -C /repo apply /verif/seeded/$ID$SUF/patch.diff || { echo "patch does not apply to /repo"; exit 3; }
